@@ -437,6 +437,11 @@ func (fx *FnCtx) callWrites(c *ssa.CallCommon, locals map[*ssa.Alloc]bool, comps
 	for _, m := range fc.Modifies {
 		if callee != nil {
 			if fv := freeVarNamed(callee, m); fv != nil {
+				if mt, isMap := deref(fv.Type()).Underlying().(*types.Map); isMap {
+					k := typeKey(mt)
+					comps["M$"+k], comps["MP$"+k], comps["ML$"+k] = true, true, true
+					continue
+				}
 				if _, isStruct := deref(fv.Type()).Underlying().(*types.Struct); isStruct {
 					for _, c := range leafComps(deref(fv.Type())) {
 						comps[c] = true
@@ -477,6 +482,20 @@ func (P *Prog) modComps(pkg *types.Package, m string) ([]string, error) {
 			return leafComps(t), nil
 		}
 		return []string{ptrComp(t)}, nil
+	case strings.HasPrefix(m, "type:"):
+		// quoted type text: a map type (its contents) or a slice type (its elements)
+		t, err := P.resolveType(pkg, m[5:])
+		if err != nil {
+			return nil, err
+		}
+		switch u := t.Underlying().(type) {
+		case *types.Map:
+			k := typeKey(u)
+			return []string{"M$" + k, "MP$" + k, "ML$" + k}, nil
+		case *types.Slice:
+			return []string{elemComp(u.Elem())}, nil
+		}
+		return nil, fmt.Errorf("modifies %q: not a map or slice type", m[5:])
 	case strings.HasPrefix(m, "ghost."):
 		return []string{"X$" + m[6:]}, nil
 	case strings.HasPrefix(m, "G."):
@@ -603,6 +622,12 @@ func (fx *FnCtx) generate() {
 	for _, m := range fx.fc.Modifies {
 		if fv := freeVarNamed(fn, m); fv != nil {
 			// cell-level: only the captured variable itself may be written through this component
+			if mt, isMap := deref(fv.Type()).Underlying().(*types.Map); isMap {
+				// a captured map: its contents may be updated
+				k := typeKey(mt)
+				fx.modSet["M$"+k], fx.modSet["MP$"+k], fx.modSet["ML$"+k] = true, true, true
+				continue
+			}
 			if _, isStruct := deref(fv.Type()).Underlying().(*types.Struct); isStruct {
 				for _, c := range leafComps(deref(fv.Type())) {
 					fx.modSet[c] = true
